@@ -219,6 +219,15 @@ def gen_c07(tier, rng):
     for lowhalf in (0x7fffffffffffffff, 0x7ffffffffffffffe, 0x00ffffffffffffff, 0xfffffffeffffffff, 0x7fffffff, 0xffffffff7fffffff):
         ivv = rb(rng, 8) + lowhalf.to_bytes(8, 'big')
         yield ('ctr-carry-word-patterns', 'sm4rt ctr %s %s %s' % (hx(rb(rng, 16)), hx(ivv), hx(rb(rng, 50))), None)
+    # carries that happen only after several blocks (batched / grouped counter arithmetic): the low w bits of the counter are
+    # 2^w - t, so the carry out of bit w occurs after t blocks, in the middle of the data; lengths straddle it with a partial tail
+    ws = (8, 16, 24, 32, 40, 48, 56, 64, 96, 128) if tier == 'thorough' else (8, 16, 32, 64, 128)
+    for w in ws:
+        for t in (range(1, 18) if tier == 'thorough' else (1, 2, 3, 4, 5, 7, 8, 9, 12, 16)):
+            hi = (rng.getrandbits(128) >> w << w) if w < 128 else 0
+            ivv = ((hi | ((1 << w) - t)) & ((1 << 128) - 1)).to_bytes(16, 'big')
+            ln = 16 * (t + rng.choice([1, 2, 4])) + rng.randint(1, 15)
+            yield ('ctr-carry-after-t-blocks', 'sm4rt ctr %s %s %s' % (hx(rb(rng, 16)), hx(ivv), hx(rb(rng, ln))), None)
     # CBC decrypt: every length 0..=80 and every final plaintext byte value
     k, iv = rb(rng, 16), rb(rng, 16)
     for ln in range(0, 81 if tier == 'thorough' else 49):
@@ -416,6 +425,44 @@ def gen_c18(tier, rng):
     if tier == 'thorough':
         for name, d in std_vectors('eia3.big'):
             yield ('frozen-eia-length-near-2^32', 'eia_big %s %s %s %s %s %s' % (d['key'], d['count'], d['bearer'], d['dir'], d['length'], d['seed']), 'OK ' + d['mac'])
+    # word counts at and around powers of two (chunked / blocked keystream generation: ceil(LENGTH/32) = 2^j - 1, 2^j, 2^j + 1,
+    # j = 5..12 and 3*2^j), LENGTH a multiple of 32 and not
+    js = range(5, 13) if tier == 'thorough' else (6, 8, 10, 11, 12)
+    for j in js:
+        for nw in sorted({(1 << j) - 1, 1 << j, (1 << j) + 1, 3 << (j - 1)}):
+            for ln in (32 * nw, 32 * nw - rng.randint(1, 31)):
+                msg = [rng.getrandbits(32) for _ in range(nw + rng.choice([0, 1]))]
+                yield ('eea-wordcount-pow2', 'eea2 %s %x %x %x %x %s' % (hx(rb(rng, 16)), rng.getrandbits(32), rng.randrange(32), rng.randrange(2), ln, words_hex(msg)), None)
+                if j <= 10 or tier == 'thorough':
+                    yield ('eia-wordcount-pow2', 'eia %s %x %x %x %x %s' % (hx(rb(rng, 16)), rng.getrandbits(32), rng.randrange(32), rng.randrange(2), ln, words_hex(msg)), None)
+    # structured message contents: all-zero / all-one words and bytes embedded between non-zero ones, zero prefix / suffix,
+    # a single set bit (word-wise or byte-wise shortcuts over "empty" input words must not change positions)
+    for t in range(40 if tier == 'thorough' else 16):
+        nw = rng.randint(2, 12)
+        msg = [rng.getrandbits(32) for _ in range(nw)]
+        kind = t % 8
+        if kind == 0:
+            msg[rng.randrange(nw - 1)] = 0
+        elif kind == 1:
+            for i in range(0, nw - 1, 2):
+                msg[i] = 0
+        elif kind == 2:
+            msg = [0] * (nw - 1) + [msg[-1] | 1]
+        elif kind == 3:
+            msg[rng.randrange(nw)] = 0xffffffff
+        elif kind == 4:
+            msg = [0] * nw
+            msg[rng.randrange(nw)] = 1 << rng.randrange(32)
+        elif kind == 5:
+            msg = [w & rng.choice([0x00ffffff, 0xff00ffff, 0xffff00ff, 0xffffff00, 0x0000ffff, 0xffff0000]) for w in msg]
+        elif kind == 6:
+            msg[0] = 0
+            msg[-1] = 0
+        else:
+            msg = [0, 0] + msg[2:] if nw > 2 else [0, msg[1] | 1]
+        for ln in (32 * nw, 32 * nw - rng.randint(1, 31)):
+            yield ('eia-structured-words', 'eia %s %x %x %x %x %s' % (hx(rb(rng, 16)), rng.getrandbits(32), rng.randrange(32), rng.randrange(2), ln, words_hex(msg)), None)
+            yield ('eea-structured-words', 'eea2 %s %x %x %x %x %s' % (hx(rb(rng, 16)), rng.getrandbits(32), rng.randrange(32), rng.randrange(2), ln, words_hex(msg)), None)
     # all bearers x directions
     k = rb(rng, 16)
     for bearer in range(32):
